@@ -921,6 +921,12 @@ func newBaseInterpreter(hpkg *ssa.Package) (i *interpreter, err error) {
 		for _, m := range pkg.Members {
 			if v, ok := m.(*ssa.Global); ok {
 				cell := zero(mustDeref(v.Type()))
+				if pkg.Pkg.Path() == "unicode" {
+					if t := hostUnicodeTable(v.Name()); t != nil && types.TypeString(mustDeref(v.Type()), nil) == "*unicode.RangeTable" {
+						var tv value = hostRangeTable{v.Name(), t}
+						cell = &tv
+					}
+				}
 				i.globals[v] = &cell
 			}
 		}
